@@ -27,7 +27,7 @@ partial def showTy : Ty → String
   | .named parts args has => s!"(named {dots parts} [{" ".intercalate (args.map showTy)}] {showB has})"
   | .array e size se => s!"(array {showTy e} {size} {match se with | some x => showExpr x | none => "-"})"
 partial def showExpr : Expr → String
-  | .lit v t => s!"(lit {hexLatin v} {t})"
+  | .lit v t p => s!"(lit {hexLatin v} {t} {showP p})"
   | .null p => s!"(null {showP p})"
   | .var n p => s!"(var {n} {showP p})"
   | .bin op l r p => s!"(bin {hexLatin op} {showExpr l} {showExpr r} {showP p})"
